@@ -57,7 +57,7 @@ def gen_cat(rng, typ):
     o = tuple(F(rng.randint(-16, 16), 8) for _ in range(3))
     # scale so that s*e is a multiple of 1/8 and stays small
     s = {0: rng.choice([F(1, 2), F(1), F(3, 2), F(2)]), 1: rng.choice([F(1, 8), F(1, 4), F(1, 2)]), 2: rng.choice([F(1, 8), F(1, 8), F(1, 4)])}[fam]
-    base = {"ints": False, "fam": fam}
+    base = {"ints": False, "fam": fam, "f1": X.ser(e1), "f2": X.ser(e2), "f3": X.ser(e3)}
     if typ == "Point":
         return dict(base, t="Point", form=rng.choice(["xyz", "list"]), p=X.ser(o))
     if typ == "Vector":
@@ -388,6 +388,68 @@ def _pair_checks(A, B, sa, sb):
     return out
 
 
+def _cross_objects(sa):
+    """third objects C in general position w.r.t. the catalogue object A (frame
+    directions are mutually orthogonal): specs, exact"""
+    t = sa["t"]
+    if t in ("Point", "Vector") or "f1" not in sa:
+        return []
+    f1, f2, f3 = X.vec(sa["f1"]), X.vec(sa["f2"]), X.vec(sa["f3"])
+    L = lambda a, d: {"t": "Line", "form": "PV", "a": X.ser(a), "b": X.ser(d), "ints": False}
+    S = lambda a, d: {"t": "Segment", "form": "PV", "a": X.ser(X.sub(a, d)), "b": X.ser(X.mul(F(2), d)), "ints": False}
+    out = []
+    if t in ("Line", "Segment", "HalfLine"):
+        a, d = X.carrier(sa)
+        other = [f for f in (f1, f2, f3) if not X.parallel(f, d)]
+        for f in other[:2]:
+            out.append(("cross:line", L(a, f)))
+        out.append(("cross:segment", S(X.add(a, d), other[0])))
+    elif t == "Plane":
+        a, n = X.carrier(sa)
+        inpl = [f for f in (f1, f2, f3) if X.dot(f, n) == 0]
+        out.append(("cross:line", L(a, n)))
+        if inpl:
+            out.append(("cross:line_in", L(a, inpl[0])))
+            out.append(("cross:segment", S(a, X.add(n, inpl[0]))))
+    elif t == "ConvexPolygon":
+        vs = X.vertices(sa)
+        n = X.cross(X.sub(vs[1], vs[0]), X.sub(vs[2], vs[0]))
+        for k in range(3, len(vs)):
+            if not X.is_zero(n):
+                break
+            n = X.cross(X.sub(vs[1], vs[0]), X.sub(vs[k], vs[0]))
+        n = X._primitive(n)
+        mid = X.mul(F(1, 2), X.add(vs[0], vs[2 if len(vs) > 3 else 1]))
+        out.append(("cross:line", L(mid, n)))
+        out.append(("cross:segment", S(vs[0], n)))
+        out.append(("cross:line_in", L(vs[0], X.sub(vs[1], vs[0]))))
+    elif t == "ConvexPolyhedron":
+        vs = X.vertices(sa)
+        c = X.mul(F(1, 2), X.add(vs[0], vs[-1]))  # centre of a box (opposite corners)
+        out.append(("cross:line", L(c, f1)))
+        out.append(("cross:segment", S(c, X.mul(F(1, 8), f2))))
+    return out
+
+
+def _cross_checks(A, B, sa):
+    """J2 substitution: a third object meets A and its eps/1000 companion alike"""
+    G = lib()
+    out = []
+    for name, cs in _cross_objects(sa):
+        C1, C2 = call(build, cs), call(build, cs)
+        if isinstance(C1, Raised):
+            continue
+        r0, r1 = call(G.intersection, A, C1), call(G.intersection, B, C2)
+        if isinstance(r0, Raised) or r0 is None:
+            # the catalogue object itself has no clean answer here: nothing to compare
+            out.append((name, True, True))
+            continue
+        e = call(lambda a, b: a == b, r0, r1) if tname(r0) == tname(r1) else None
+        ok = tname(r0) == tname(r1) and e is True
+        out.append((name, True if ok else "A:%s,B:%s,==:%s" % (disc(r0), disc(r1), disc(e)), True))
+    return out
+
+
 def _battery(world, ids):
     """a fixed list of queries on given objects; answers as comparable values"""
     G = lib()
@@ -579,7 +641,7 @@ def _check_near(ctx, step, M, a, b):
         ctx.count("near_inadmissible:" + why)
         ctx.event(step, "CHECK_NEAR", "inadmissible")
         return
-    res = _pair_checks(A, B, a["spec"], b["spec"])
+    res = _pair_checks(A, B, a["spec"], b["spec"]) + _cross_checks(A, B, a["spec"])
     ctx.count("J2_pairs")
     ctx.count("J2_pairs:%s:j=%d" % (t, j))
     if a["built"] != M.key() or b["built"] != M.key():
